@@ -119,3 +119,76 @@ def vorticity_stretching_timestep_ssprk3_3d(K):
     for _ in K.case(not_(inside)):
         for i in range(3):
             K.ensures_eq(f"ring_comp{i}_unchanged", K.value(w, (i,) + c), w0[i])
+
+
+def _cheb(m, x):
+    a, b = 1, x
+    if m == 0:
+        return a
+    for _ in range(m - 1):
+        a, b = b, 2 * x * b - a
+    return b
+
+
+@unit("laplacian_filter_fourier_symbol", props=("C19",),
+      configs=[dict(filter_type=t, order=k) for t in ("multiplicative", "convolution") for k in (1, 2, 3, 4)],
+      assumes=("M3: the Fourier symbol of a shift-invariant even stencil sum_o a_o f[c+o] is sum_o a_o prod_d cos(o_d theta_d), "
+               "and cos(m theta) = T_m(cos theta) (Chebyshev)",
+               "range clause for orders >= 2 follows from the proved identity with the factored form by repeated use of the "
+               "proved step lemmas (y,s in [0,1] => y*s in [0,1]; t in [0,1] => 1-t in [0,1])"))
+def laplacian_filter_fourier_symbol(K, filter_type, order):
+    """away from the boundary the real filter closure acts as a fixed even stencil; its Fourier
+    symbol, as a polynomial in x_d = cos(theta_d), equals 1 - prod_d y_d^k (multiplicative) or
+    prod_d (1 - y_d^k) (convolution) with y_d = (1 - x_d)/2 in [0,1]: hence it is 1 at theta = 0
+    (constants fixed), 0 at theta = (pi,pi,pi) (checkerboard annihilated) and lies in [0,1]."""
+    from svx.sym import ATOMS, Sym
+    if K.mode != "sym":
+        return
+    shape = gshape(K, 3)
+    flux_buf, field_buf = K.field("filter_flux_buffer", shape), K.field("field_buffer", shape)
+    k = K.gen("gen_laplacian_filter_kernel_3d", filter_order=order, filter_flux_buffer=flux_buf,
+              field_buffer=field_buf, field_type="scalar", filter_type=filter_type)
+    f = K.field("scalar_field", shape)
+    K.run(k, scalar_field=f)
+    c = K.cell(shape, name="i", margin=order + 1)
+    val = K.value(f, c)
+    # --- extract the stencil by linearity: val = sum_o coef[o] * scalar_field[c+o]
+    coef, linear = {}, True
+    for m, a in val.p.items():
+        if len(m) != 1 or m[0][1] != 1 or ATOMS[m[0][0]].kind != "cell" or ATOMS[m[0][0]].args[0] != "scalar_field":
+            linear = False
+            break
+        idx = [Sym._from_key(kx) for kx in ATOMS[m[0][0]].args[1]]
+        off = [i - ci for i, ci in zip(idx, c)]
+        if not all(o.is_const() for o in off):
+            linear = False
+            break
+        coef[tuple(int(o.const_value()) for o in off)] = a
+    K.ensures("result_is_a_fixed_linear_stencil_of_the_input_only", linear,
+              note="no work-buffer content, no constant term, no products")
+    if not linear:
+        return
+    K.ensures("stencil_is_even", all(coef.get(tuple(-x for x in o)) == a for o, a in coef.items()))
+    x = [K.real(f"cos_theta_{d}") for d in "zyx"]
+    symbol = sum(a * _cheb(abs(o[0]), x[0]) * _cheb(abs(o[1]), x[1]) * _cheb(abs(o[2]), x[2]) for o, a in coef.items())
+    y = [(1 - xi) / 2 for xi in x]
+    if filter_type == "multiplicative":
+        factored = 1 - (y[0] * y[1] * y[2]) ** order
+    else:
+        factored = (1 - y[0] ** order) * (1 - y[1] ** order) * (1 - y[2] ** order)
+    K.ensures_eq("symbol_equals_documented_transfer_function", symbol, factored)
+    one = {ATOMS_id(xi): Sym.const(1) for xi in x}
+    mone = {ATOMS_id(xi): Sym.const(-1) for xi in x}
+    K.ensures_eq("constants_are_kept_(theta=0)", symbol.subst(one), 1)
+    K.ensures_eq("checkerboard_is_annihilated_(theta=pi)", symbol.subst(mone), 0)
+    # range: step lemmas (proved), and the direct statement for order 1
+    s, t = K.real("s"), K.real("t")
+    K.ensures("step_lemma_product_in_[0,1]", and_(s * t >= 0, s * t <= 1), when=and_(s >= 0, s <= 1, t >= 0, t <= 1))
+    K.ensures("step_lemma_complement_in_[0,1]", and_(1 - t >= 0, 1 - t <= 1), when=and_(t >= 0, t <= 1))
+    if order == 1:
+        K.ensures("symbol_in_[0,1]", and_(symbol >= 0, symbol <= 1), when=and_(*[and_(xi >= -1, xi <= 1) for xi in x]))
+
+
+def ATOMS_id(s):
+    (m, _), = s.p.items()
+    return m[0][0]
